@@ -13,6 +13,8 @@ import Driver.Client
 import Driver.Cache
 import Driver.CliLts
 import Driver.KeyAccess
+import Driver.Lts
+import Driver.Lex
 open Driver
 
 /-- the handler chain: add one line per driver module. -/
@@ -25,7 +27,9 @@ def handlers : List (String → String → Option String) := [
   handleClient,
   handleCache,
   handleCliLts,
-  handleKeyAccess
+  handleKeyAccess,
+  handleLts,
+  handleLex
 ]
 
 def handle (line : String) : String :=
